@@ -13,7 +13,8 @@ import z3
 
 from .. import symx, pyx2py, pyxrt
 from ..symx import Sym, Explorer, load_shimmed, model_value
-from .c08 import SymC, Poly, _sympy_to_z3
+from ..symc import SymC, Poly
+from .c08 import _sympy_to_z3
 
 PYX = "/repo/src/chmpy/shape/_sht.pyx"
 
